@@ -86,6 +86,9 @@ func script0(w *W) string {
 			n = 0
 		}
 		for k := 0; k < n; k++ {
+			if w.Nulls && p == 0 && k%2 == 0 {
+				fmt.Fprintf(&b, "  __b(%d, \"send\", \"null:p%d-%d\");\n  $r = $ch->send(null);\n  __e(%d, $r);\n", id, p, k, id)
+			}
 			if w.ArrayPayload {
 				fmt.Fprintf(&b, "  $a = [\"p%d\", \"%d\"];\n  __b(%d, \"send\", \"p%d-%d\");\n  $r = $ch->send($a);\n  __e(%d, $r);\n", p, k, id, p, k, id)
 				continue
